@@ -28,7 +28,7 @@ Ltac xstep :=
   match goal with
   | |- context [X86.run _ _ _ _ _ _ _ ?PR (S ?f) ?pc ?st] =>
     rewrite (run_S A s junk slot avx2 popcnt c PR f pc st _ eq_refl);
-    cbn [X86.step val ea wr64 rg vr set_reg set_vr set_fl set_res m_disp m_base m_idx
+    cbv beta iota zeta delta [X86.step val ea wr64 rg vr set_reg set_vr set_fl set_res m_disp m_base m_idx
          gAX gBX gCX gDX gSI gDI gR8 gR9 gR10 gR11 gR12 gR13 gR14 gR15 v0 v1 v2 v3 v4 v5 v6 v7 fl res]
   end.
 
@@ -45,7 +45,84 @@ Proof.
   pose proof len_nonneg. unfold two63, two64 in *.
   do 10 xstep.
   eexists. split; [reflexivity|]. cbn. repeat split; try reflexivity.
-  unfold two64. rewrite Z.mod_small by lia. rewrite (Z.mod_small 16) by lia. reflexivity.
 Qed.
+
+
+(* an explicit machine state *)
+Definition mk ax bx cx dx si di r8 r9 r10 r11 r12 r13 r14 r15 x0 x1 x2 x3 x4 x5 x6 x7 f rs : st :=
+  {| gAX := ax; gBX := bx; gCX := cx; gDX := dx; gSI := si; gDI := di; gR8 := r8; gR9 := r9; gR10 := r10; gR11 := r11;
+     gR12 := r12; gR13 := r13; gR14 := r14; gR15 := r15; v0 := x0; v1 := x1; v2 := x2; v3 := x3; v4 := x4; v5 := x5;
+     v6 := x6; v7 := x7; fl := f; res := rs |}.
+
+Hypothesis Hwf : Forall (fun b => 0 <= b < 256) s.
+
+Lemma slot_eq : (slot =? slot) = true.
+Proof. apply Z.eqb_refl. Qed.
+
+Lemma store_m1 : signed64 ((-1) mod two64) = -1.
+Proof. reflexivity. Qed.
+
+Lemma nil_of_len0 : len = 0 -> s = [].
+Proof. unfold X86.len. destruct s; [reflexivity|cbn [length]; lia]. Qed.
+
+Lemma bytes_range a n : Forall (fun b => 0 <= b < 256) (bytes_at A s junk a n).
+Proof.
+  revert a. induction n as [|n IH]; intros a; [constructor|]. cbn [bytes_at]. constructor; [|apply IH].
+  unfold X86.byte_at. destruct ((A <=? a) && (a <? A + len)) eqn:E.
+  - rewrite Forall_forall in Hwf. apply Hwf. apply nth_In. unfold X86.len in E. lia.
+  - lia.
+Qed.
+
+Lemma vlow_vput w (v old : list Z) : length v = w -> vlow w (vput w v old) = v.
+Proof.
+  intros H. unfold vlow, vput. rewrite firstn_app, firstn_firstn, Nat.min_id, firstn_length, H, Nat.min_id, Nat.sub_diag.
+  cbn [firstn]. rewrite app_nil_r. apply firstn_all2. lia.
+Qed.
+
+Lemma movmsk_small16 (v : list Z) : length v = 16%nat -> movmsk v mod two32 = movmsk v.
+Proof. intros H. pose proof (movmsk_range v) as R. rewrite H in R. change (2 ^ Z.of_nat 16) with 65536 in R. unfold two32. lia. Qed.
+
+(* lengths below 16 *)
+Lemma small_path ax cx dx di r9 r10 r11 r12 r13 r14 r15 x0 x1 x2 x3 x4 x5 x6 x7 :
+  len < 16 ->
+  exists fuel, run fuel 14 (mk ax len cx dx A di slot r9 r10 r11 r12 r13 r14 r15 x0 x1 x2 x3 x4 x5 x6 x7 (cmp_flags len 16 signed64) None)
+               = Done (Some (fh s)).
+Proof.
+  intros Hl. pose proof len_nonneg as H0. unfold mk. unfold two63 in Hlen.
+  destruct (Z.eq_dec len 0) as [E0|N0].
+  { (* empty *)
+    exists 5%nat. xstep. rewrite holds_cmp_LT by (unfold two63; lia). replace (len <? 16) with true by lia. cbv iota.
+    xstep. xstep. cbn [holds zf]. rewrite Z.land_diag. replace (len =? 0) with true by lia. cbv iota.
+    xstep. replace (0 + slot + 0 =? slot) with true by lia. cbv iota. rewrite store_m1. xstep.
+    rewrite (nil_of_len0 E0). reflexivity. }
+  destruct (Z_lt_le_dec ((16 + A + 0) mod 4096) 16) as [Pg|Pg].
+  - (* the 16-byte load at s would cross into the next page: load the 16 bytes that END at the end of s *)
+    admit.
+  - (* load 16 bytes at s: s followed by 16 - len bytes of the same page *)
+    set (n := length s). assert (Hn : len = Z.of_nat n) by reflexivity.
+    assert (Hrd : forall k, (k < 16)%nat -> readable A s (0 + A + 0 + Z.of_nat k) = true).
+    { intros k Hk. apply (readable_first_page A s junk); lia. }
+    set (J := bytes_at A s junk (A + Z.of_nat n) (16 - n)).
+    assert (Eb : bytes_at A s junk (0 + A + 0) 16 = s ++ J).
+    { replace (0 + A + 0) with A by lia. replace 16%nat with (n + (16 - n))%nat by lia.
+      rewrite bytes_at_app. unfold n at 1. rewrite bytes_at_whole. reflexivity. }
+    assert (LJ : length (s ++ J) = 16%nat) by (rewrite app_length; unfold J; rewrite bytes_at_length; lia).
+    assert (Emsk : movmsk (s ++ J) = movmsk s + 2 ^ Z.of_nat n * movmsk J) by apply movmsk_app.
+    pose proof (movmsk_range s) as Rs. pose proof (movmsk_range J) as RJ.
+    destruct (Z.eq_dec (movmsk (s ++ J)) 0) as [Mz|Mnz].
+    + (* no high byte among the 16: none in s *)
+      exists 13%nat. xstep. rewrite holds_cmp_LT by (unfold two63; lia). replace (len <? 16) with true by lia. cbv iota.
+      xstep. xstep. cbn [holds zf]. rewrite Z.land_diag. replace (len =? 0) with false by lia. cbv iota.
+      xstep. rewrite in64_true by (unfold two64; lia). cbv iota.
+      xstep. xstep. cbn [holds zf]. rewrite testw_page by lia. replace ((16 + A + 0) mod 4096 <? 16) with false by lia. cbv iota.
+      xstep. rewrite (load_bytes A s junk 16 _ Hrd), Eb. cbv iota.
+      xstep. xstep. rewrite (vlow_vput 16 _ _ LJ).
+      xstep. rewrite (movmsk_small16 _ LJ), Mz. change (0 =? 0) with true. cbv iota.
+      xstep. cbn [holds zf]. cbv iota.
+      xstep. replace (0 + slot + 0 =? slot) with true by lia. cbv iota. rewrite store_m1. xstep.
+      f_equal. f_equal. symmetry. apply movmsk_zero. assert (0 <= 2 ^ Z.of_nat n) by (apply Z.pow_nonneg; lia). nia.
+    + admit.
+Admitted.
+
 
 End K.
